@@ -5,6 +5,8 @@ import Verif.Spec.C09HtmlTok
 Composition of runs, the end-of-input action, and equality of the tail-recursive evaluation used by the driver
 (`itemsFast`) with the specification (`items`).
 -/
+deriving instance DecidableEq for Except
+
 namespace Verif.Proofs.C09HtmlTok
 open Verif.Spec.C09HtmlTok
 
